@@ -575,6 +575,56 @@ impl<K: Kind> Scenario for Bf<K> {
                 }
                 c.to_string()
             }
+            "bigcount" => {
+                // bigcount <k>: node_count() of the k largest ballast functions against an independent
+                // traversal through the public node API (a set of node ids) - diagrams far beyond the
+                // sizes the tracked handles reach (node sets of both backends: pages, offsets, hashes)
+                let k: usize = w[1].parse().unwrap();
+                let Some(b) = self.state.get("ballast") else { return "bad-op".into() };
+                let Some(pool) = b.downcast_ref::<Vec<K::F>>() else { return "bad-op".into() };
+                let mut fs: Vec<K::F> = pool.iter().rev().take(k).cloned().collect();
+                // one function combining ballast created at very different times (its nodes are spread
+                // over the whole store)
+                let stride = (pool.len() / 48).max(1);
+                let mut acc = pool[0].clone();
+                for g in pool.iter().step_by(stride).skip(1) {
+                    match acc.xor(g) {
+                        Ok(r) => acc = r,
+                        Err(_) => break,
+                    }
+                }
+                fs.push(acc);
+                for f in fs {
+                    let c = f.node_count();
+                    let e = f.with_manager_shared(|m, e| {
+                        use oxidd::{Edge, InnerNode, Node};
+                        let mut seen: std::collections::HashSet<oxidd::NodeID> = std::collections::HashSet::new();
+                        let mut terminals: std::collections::HashSet<oxidd::NodeID> = std::collections::HashSet::new();
+                        let mut stack = vec![m.clone_edge(e)];
+                        while let Some(x) = stack.pop() {
+                            match m.get_node(&x) {
+                                Node::Inner(n) => {
+                                    if seen.insert(x.node_id()) {
+                                        for c in n.children() {
+                                            stack.push(m.clone_edge(&c));
+                                        }
+                                    }
+                                }
+                                Node::Terminal(_) => {
+                                    terminals.insert(x.node_id());
+                                }
+                            }
+                            m.drop_edge(x);
+                        }
+                        seen.len() + terminals.len()
+                    });
+                    ctx.add("bigcount_nodes", e as u64);
+                    if c != e {
+                        ctx.fail("node-count", &format!("node_count() of a ballast function = {c} but an independent traversal finds {e} nodes (inner + terminal)"));
+                    }
+                }
+                "ok".into()
+            }
             "cof" => {
                 let (f, _t) = match self.get(w[1]) {
                     Some(x) => x,
